@@ -389,7 +389,7 @@ def stmt_end(m, k):
 def insert_loop_contracts(body, loops, masked=None):
     """Insert loop contract text after the n-th loop header (1-based, textual
     order) — for `for(...)`/`while(...)` before the loop body; for do-while
-    after `while(...)` of the do loop (CBMC syntax: do {..} while(c) contract;)"""
+    between `do` and the body (cbmc 6.11 syntax: do contract {..} while(c);)"""
     m = strip_comments_keep_layout(body)
     heads = []
     for mm in re.finditer(r'\b(for|while|do)\b', m):
@@ -438,6 +438,8 @@ def insert_loop_contracts(body, loops, masked=None):
         pos = loops_pos[n - 1][2]
         if pos is None:
             raise ExtractError('loop %d: do-while tail not found' % n)
+        if loops_pos[n - 1][0] == 'do':
+            pos = loops_pos[n - 1][1] + 2      # cbmc 6.11: the contract of a do-while goes between `do` and the body
         inserts.append((pos, '\n' + text.rstrip() + '\n'))
     for pos, text in sorted(inserts, reverse=True):
         body = body[:pos] + text + body[pos:]
